@@ -141,7 +141,9 @@ def run_job(job):
             # a plain sequence of one number per coefficient is only meaningful for list-backed multivectors
             # (an ndarray-backed one hands it to numpy broadcasting); arrays of the addressed shape and
             # multivectors are meaningful for both
-            mode = rng.choice(['scalar_each', 'array_each', 'mv'] if cont == 'list' else ['array_each', 'mv'])
+            mode = rng.choice(['scalar_each', 'array_each', 'mv', 'mv_perm'] if cont == 'list' else ['array_each', 'mv', 'mv_perm'])
+            if mode == 'mv_perm' and len(x.keys()) < 2:
+                mode = 'mv'
             if mode == 'scalar_each':
                 vals = [rng.randint(10, 99) for _ in x.keys()]
                 assigned = [[v] * len(pos) for v in vals]
@@ -150,6 +152,11 @@ def run_job(job):
                 arrs = [np.array([rng.randint(10, 99) for _ in range(tgt.size)], dtype=np.int64).reshape(tgt.shape) for _ in x.keys()]
                 assigned = [[int(v) for v in a.reshape(-1)] for a in arrs]
                 rhs = arrs if mode == 'array_each' else MultiVector.fromkeysvalues(alg, x.keys(), arrs)
+                if mode == 'mv_perm':      # the same element as in mode 'mv', its blades stored in another order
+                    perm = list(range(len(x.keys())))
+                    while perm == sorted(perm):
+                        rng.shuffle(perm)
+                    rhs = MultiVector.fromkeysvalues(alg, tuple(x.keys()[i] for i in perm), [arrs[i] for i in perm])
             ob = rec_arr(other)
             ev = {'id': eid, 'kind': 'setitem', 'index': repr(idx), 'container': cont, 'mode': mode, 'before': before, 'pos': [int(p) for p in pos],
                   'assigned': assigned, 'raised': '', 'after': before, 'otherbefore': ob, 'otherafter': ob}
